@@ -158,10 +158,14 @@ func main() {
 			os.Exit(2)
 		}
 		start := time.Now()
-		drv, err := StartDriver(*driver)
-		if err != nil {
-			fmt.Fprintln(os.Stderr, "driver:", err)
-			os.Exit(2)
+		var drv *Driver
+		if *driver != "none" {
+			var err error
+			drv, err = StartDriver(*driver)
+			if err != nil {
+				fmt.Fprintln(os.Stderr, "driver:", err)
+				os.Exit(2)
+			}
 		}
 		ctx := &Ctx{
 			Prop: *prop, Tier: *tier, Seed: *seed, Rng: rand.New(rand.NewSource(*seed)), Drv: drv,
